@@ -131,7 +131,16 @@ Definition frag1 (fb : flat) : bool :=
     derived factors of the design that nothing uses; they must be within-trial
     factors reading factors of [act_design] through a table in which exactly one
     level accepts every argument tuple.  Their rows are not part of the
-    candidate; [FragSem.cand_seq] adds them ([Block.add_implied_levels]). *)
+    candidate; [FragSem.cand_seq] adds them ([Block.add_implied_levels]).
+
+    Derived factors in the sampled crossing: within-trial derived factors that
+    read plain factors of [act_design] (crossed or not) may be crossed.  The
+    crossing instances are the consistent level combinations
+    ([is_excluded_or_inconsistent_combination]); the uncrossed factors they read
+    are the source factors, drawn per trial among the source combinations the
+    derived levels of the trial's instance allow
+    ([_valid_source_combinations_indices]).  Then there is one crossing only,
+    and every instance must allow at least one source combination. *)
 Definition level_weight_nat (fb : flat) (f l : nat) : nat :=
   match nth_error (levels_of fb f) l with Some lv => lv_weight lv | None => 1 end.
 Definition combo_weight (fb : flat) (di : asg) : nat :=
@@ -163,13 +172,36 @@ Definition implied_fd (fb : flat) (f : nat) (fd : ffactor) : bool :=
               && forallb (isact fb) (win_deps w) && tables_exact fb f w
   | None => false
   end.
+Definition is_basic_f (fb : flat) (d : nat) : bool :=
+  match factor_at fb d with Some fd => basic_fd fd | None => false end.
+(** a within-trial derived factor of the sampled crossing that reads plain factors of [act_design] *)
+Definition crossed_derived_fd (fb : flat) (f : nat) (fd : ffactor) : bool :=
+  match ff_window fd with
+  | Some w => negb (ff_complex fd) && (win_width w =? 1) && (win_stride w =? 1) && (win_start w =? 0)
+              && memb f (hd [] (fl_crossings fb)) && forallb (fun d => isact fb d && is_basic_f fb d) (win_deps w)
+  | None => false
+  end.
 Definition factors_ok (fb : flat) : bool :=
-  forallb (fun p => if isact fb (fst p) then basic_fd (snd p) else implied_fd fb (fst p) (snd p))
+  forallb (fun p => if isact fb (fst p) then basic_fd (snd p) || crossed_derived_fd fb (fst p) (snd p)
+                    else implied_fd fb (fst p) (snd p))
           (combine (seq 0 (length (fl_design fb))) (fl_design fb)).
+Definition has_derived (fb : flat) : bool := existsb (is_derived fb) (fl_act fb).
+(** every crossing instance allows some source combination *)
+Definition sources_ok (fb : flat) : bool :=
+  match enum_base_of fb with
+  | ROk eb => match valid_sources fb eb with
+              | ROk vs => forallb (fun l : list nat => 0 <? length l) vs
+              | RErr _ => false
+              end
+  | RErr _ => false
+  end.
+(** the admitted level combinations of a crossing: not excluded, and consistent for its derived factors *)
+Definition allowed_combos2 (fb : flat) (c : list nat) : list (list nat) :=
+  filter (fun ls => negb (is_excluded_or_inconsistent_combination fb (combine c ls))) (product (map (all_levels fb) c)).
 Definition act_levels_nonempty (fb : flat) : bool :=
   forallb (fun f => 0 <? length (nonexcluded_levels fb f)) (fl_act fb).
 Definition crossing_size_ok (fb : flat) (cs : list nat * nat) : bool :=
-  (snd cs =? list_sum (map (fun ls => combo_weight fb (combine (fst cs) ls)) (allowed_combos fb (fst cs)))) && (0 <? snd cs).
+  (snd cs =? list_sum (map (fun ls => combo_weight fb (combine (fst cs) ls)) (allowed_combos2 fb (fst cs)))) && (0 <? snd cs).
 Definition plain_crossings (fb : flat) : bool :=
   let k := length (fl_crossings fb) in
   (0 <? k) && forallb (crossing_plain fb) (fl_crossings fb)
@@ -181,7 +213,8 @@ Definition plain_crossings (fb : flat) : bool :=
 Definition frag2 (fb : flat) : bool :=
   plain_crossings fb && forallb (constraint_f2 fb) (fl_constraints fb) && exclude_consistent fb
   && act_sorted fb && factors_ok fb && act_levels_nonempty fb
-  && ((0 <? fl_trials fb) || (no_rejecting_constraints fb && (length (fl_crossings fb) =? 1))).
+  && ((0 <? fl_trials fb) || (no_rejecting_constraints fb && (length (fl_crossings fb) =? 1)))
+  && (negb (has_derived fb) || ((length (fl_crossings fb) =? 1) && sources_ok fb)).
 
 (** the part of F1 / F2 in which no candidate is ever rejected *)
 Definition rejection_free (fb : flat) : bool :=
@@ -189,4 +222,6 @@ Definition rejection_free (fb : flat) : bool :=
                     | FCross | FConsistency | FMinimumTrials _ | FDerivation _ _ _ | FExclude _ _ => true
                     | _ => false
                     end) (fl_constraints fb)
-  && (length (fl_crossings fb) <=? 1).    (* further crossings are enforced by rejection *)
+  && (length (fl_crossings fb) <=? 1)     (* further crossings are enforced by rejection *)
+  && (negb (has_derived fb)               (* source factors may draw excluded levels *)
+      || forallb (fun k => match k with FExclude _ _ => false | _ => true end) (fl_constraints fb)).
